@@ -106,6 +106,17 @@ def r_C05cde(root):
         ob("C05", "C05.f", M, "get_model", "from the %s" % what, okc)
         if not okc:
             out.append(Finding("C05", "C05.f", M, "get_model", "from the %s" % what, ("get_model compares model objects with == / in: a user class that defines equality by value makes the walk stop early or skip objects" if eqlog else "get_model started at the %s of a three-level sample chain does not return the chain's root (%s)" % (what, "raises " + str(v) if k == "raise" else "returns another object")), witness="user class with __eq__ comparing names; get_model(inner)"))
+    # a deeply nested object (300 containers): the walk has no depth limit
+    deep = r3 = mk2(cC)
+    for _i in range(300): deep = mk2(cB, deep)
+    inst += 1; del eqlog[:]
+    try: k, v = "ret", _pe.run_block(gm.body, {"__functions__": helper_functions(root, M, "get_model"), pm: deep, "T": None, "Any": None}, max_steps=20000)
+    except _pe.Raised as r_: k, v = "raise", r_.cls
+    except _pe.Unsupported as u_: raise AnalysisError("get_model: outside the evaluated subset: %s" % u_)
+    okc = k == "ret" and v is r3
+    for pr_ in ("C05", "C13"): ob(pr_, "C05.f", M, "get_model", "from an object nested 300 levels deep", okc)
+    if not okc:
+        for pr_ in ("C05", "C13"): out.append(Finding(pr_, "C05.f", M, "get_model", "from an object nested 300 levels deep", "get_model started at an object 300 containers below the model %s: every object's model is the root whatever the nesting depth (references of deep objects are resolved, located and processed through get_model)" % ("raises " + str(v) if k == "raise" else "does not return the root"), witness="an expression grammar with 100 nested parentheses"))
     return inst, out
 def r_C12c(root):
     out = []; inst = 0
